@@ -424,6 +424,26 @@ func (w *W) checkC10(t *gcore.Type, id string, c *dynamicpb.Message) {
 			pick = append(pick, v)
 		}
 	}
+	// a declared extension number arriving with the WRONG wire type is kept as an unknown field by its own code
+	// path; as the first (only) unknown field of the message it must be a private copy like any other
+	if id == "empty" || strings.HasPrefix(id, "ext:") {
+		for _, xt := range t.Exts() {
+			xd := xt.TypeDescriptor()
+			num := int(xd.Number())
+			var mis []byte
+			switch xd.Kind() {
+			case protoreflect.StringKind, protoreflect.BytesKind, protoreflect.MessageKind:
+				mis = refwire.AppendVarint(refwire.AppendKey(nil, num, refwire.Varint), 150)
+			default:
+				mis = refwire.AppendBytes(refwire.AppendKey(nil, num, refwire.Len), []byte("abc"))
+			}
+			if xd.IsList() && xd.Kind() != protoreflect.StringKind && xd.Kind() != protoreflect.BytesKind && xd.Kind() != protoreflect.MessageKind {
+				continue // a LEN payload is the packed form of a repeated scalar: not a mismatch
+			}
+			pick = append(pick, variant{name: fmt.Sprintf("mistyped-extension-%d-first", num), b: append(append([]byte{}, mis...), vs[0].b...)})
+			pick = append(pick, variant{name: fmt.Sprintf("mistyped-extension-%d-last", num), b: append(append([]byte{}, vs[0].b...), mis...)})
+		}
+	}
 	for _, v := range pick {
 		if len(v.b) == 0 {
 			continue
@@ -992,7 +1012,16 @@ func worker(sh *ev.Shard, prop string) {
 			continue
 		}
 		if _, ok := t.New().(marshaler); !ok {
-			sh.Internal("%s has no generated Marshal method", t)
+			// the package compiled but this message type got no fast-marshal methods (e.g. its per-message file was
+			// overwritten by another message's file): nothing exists that could hold the property for it
+			if task%sh.N == sh.Index {
+				opt := ""
+				if o := strings.TrimSpace(os.Getenv("VERIF_GEN_OPTS")); o != "" {
+					opt = "[" + o + "]"
+				}
+				sh.Fail(fmt.Sprintf("%s/message-type-without-generated-methods/%s/%s.%s%s", prop, t.RT, t.File, t.Name, opt), t.String(), map[string]any{"type": t.String(), "generator_options": os.Getenv("VERIF_GEN_OPTS")})
+			}
+			task++
 			continue
 		}
 		cs := cases(t, sh.Thorough())
